@@ -67,6 +67,11 @@ class TWebSocket:
 
     def __call__(self, environ, start_response):
         self.conn = environ['vf.ws']
+        if getattr(self.conn, 'accept_fails', False):
+            # the client went away before the driver could complete the
+            # WebSocket handshake (what simple-websocket / eventlet raise)
+            self.conn.server_closed = True
+            raise BrokenPipeError('client gone during the handshake')
         self.conn.accepted = True
         self.conn.accept_clk = self.sim.tick()
         if self.conn.on_accept is not None:
